@@ -68,6 +68,21 @@ Section Vocab.
   (* the (key, nested checkpoint / information) entries of the tasks interrupted inside, in task order *)
   Definition subpairs (rs : list (N * tex)) : list (N * (SCP * SINFO)) :=
     flat_map (fun r => match snd r with TSub c i => [(fst r, (c, i))] | _ => [] end) rs.
+
+  (* the collected tasks before the first one that failed *)
+  Fixpoint ok_prefix (rs : list (N * tex)) : list (N * tex) :=
+    match rs with
+    | [] => []
+    | r :: rs' => match snd r with TFail _ => [] | _ => r :: ok_prefix rs' end
+    end.
+
+  (* resolveInterruptCompletedTasks in the model's terms: the error of the first task that failed (if any), and
+     the accumulators extended by what the tasks before it contribute (all of them, when none failed) *)
+  Definition resolve_model (after : list N) (s0 : list (N * (SCP * SINFO))) (r0 a0 : list N) (rs : list (N * tex))
+    : res unit * (list (N * (SCP * SINFO)) * list N * list N) :=
+    let pre := ok_prefix rs in
+    (match first_fail rs with Some e => Err e | None => Ok tt end,
+     (s0 ++ subpairs pre, r0 ++ reruns pre, a0 ++ afters after pre)).
 End Vocab.
 
 (* ---------- the loop of runner.run ---------- *)
@@ -203,3 +218,45 @@ Section ErrChain.
     end.
 End ErrChain.
 Arguments gerr : clear implicits.
+
+(* ---------- the compile options, as far as the interrupt lists are concerned (extractor "intrcfg") ---------- *)
+Record copts := { opt_before : list N; opt_after : list N }.
+Definition set_opt_before (l : list N) (o : copts) : copts := {| opt_before := l; opt_after := opt_after o |}.
+Definition set_opt_after (l : list N) (o : copts) : copts := {| opt_before := opt_before o; opt_after := l |}.
+
+(* ---------- what handleInterrupt / handleInterruptWithSubGraphAndRerunNodes return (extractor "intrhandle") ---------- *)
+Section HandleVocab.
+  Context {V CS GS SCP SINFO : Type}.
+
+  Inductive hexit :=
+  | HToParent (i : @iinfo GS SINFO) (c : @checkpoint V CS GS SCP)
+        (* &subGraphInterruptError{Info, CheckPoint}: a nested graph hands both to its parent, no store *)
+  | HInterrupt (i : @iinfo GS SINFO) (c : @checkpoint V CS GS SCP) (written : bool)
+        (* &interruptError{Info}; [written]: checkPointer.set(ctx, *checkPointID, cp) was called with [c] *)
+  | HFail (e : N).
+
+  (* the exit of both handlers in the model's terms: a nested graph returns (information, checkpoint) to its
+     parent (Model/Interrupt.v: TSub); a top-level run writes the checkpoint iff an id was given
+     (Model/RunLoop.v: call, co_written) *)
+  Definition exit_of (isSubGraph hasId : bool) (r : @sres V CS GS SCP SINFO) : hexit :=
+    match r with
+    | Interrupted i c => if isSubGraph then HToParent i c else HInterrupt i c hasId
+    | Failed e => HFail e
+    | _ => HFail eChan
+    end.
+
+  (* the state a handler saves: the state object found in the context, for a graph that declares state
+     (r.runCtx != nil); nothing otherwise *)
+  Definition state_view (has_state : bool) (ctx_state : option GS) (gs_nil : GS) : GS :=
+    if has_state then match ctx_state with Some s => s | None => gs_nil end else gs_nil.
+
+  (* m[k] = m2[k].F: a missing key of m2 is a nil dereference in Go; the translated code only looks up keys of
+     tasks it selected by a successful lookup in the same map *)
+  Definition map_put_opt {A} (k : N) (o : option A) (m : list (N * A)) : list (N * A) :=
+    match o with Some a => map_put k a m | None => m end.
+  Definition sub_interrupt_CheckPoint (x : SCP * SINFO) : SCP := fst x.
+  Definition sub_interrupt_Info (x : SCP * SINFO) : SINFO := snd x.
+  (* SkipPreHandler map[string]bool -> the keys set to true *)
+  Definition skip_keys (m : list (N * bool)) : list N := map fst (filter snd m).
+End HandleVocab.
+Arguments hexit : clear implicits.
